@@ -216,7 +216,7 @@ Section Conform.
   Lemma const_ty_conf_n n : forall t c, const_ty_n E n t = Some c -> conf_g o E c t = true.
   Proof.
     induction n as [|n IHn].
-    all: induction t as [ | | | | | | m' | k' | e' | t' IHt | fr' t' IHt | t' IHt | ts IHts | pre IHpre mid IHmid IHmide post IHpost | kt IHkt vt IHvt | t' IHt | c' | c' | c' | t' IHt | kt IHkt vt IHvt | bx t' IHt ]
+    all: induction t as [ | | | | | | m' | k' | e' | t' IHt | fr' t' IHt | t' IHt | ts IHts | pre IHpre mid IHmid IHmide post IHpost | kt IHkt vt IHvt | t' IHt | c' | c' | c' | t' IHt | kt IHkt vt IHvt | bx t' IHt | ls ]
       using sty_ind'; intros c H; rewrite const_ty_n_unfold in H; try discriminate H.
     all: try (inversion H; reflexivity).
     all: try solve [
@@ -372,7 +372,8 @@ Section Conform.
   Lemma conf_vlist_nil l : forall t, conf_g o E (VList l) t = true -> conf_g o E (VList []) t = true.
   Proof.
     induction t; intros H; rewrite conf_unfold in H; rewrite conf_unfold; try discriminate H; try reflexivity.
-    cbn [is_none orb] in *. apply IHt. exact H.
+    - cbn [is_none orb] in *. apply IHt. exact H.
+    - exfalso. clear - H. induction ls as [|a ls IH]; cbn in H; [discriminate H | exact (IH H)].
   Qed.
 
   Lemma box_conf b r0 t : conf_g o E r0 t = true -> conf_g o E (box_val b r0) (SBox b t) = true.
@@ -384,12 +385,28 @@ Section Conform.
     all: destruct kvs; try exact H. apply (conf_vlist_nil _ _ H).
   Qed.
 
+  (* Literal: the result is one of the literals *)
+  Lemma exact_eq_eq a b : exact_eq a b = true -> a = b.
+  Proof.
+    destruct a, b; cbn; intros H; try discriminate H; try reflexivity.
+    - apply Bool.eqb_prop in H. subst. reflexivity.
+    - apply Z.eqb_eq in H. subst. reflexivity.
+    - apply String.eqb_eq in H. subst. reflexivity.
+  Qed.
+
+  Lemma lit_find_conf ls d r : lit_find ls d = Ok r -> conf_g o E r (SLit ls) = true.
+  Proof.
+    unfold lit_find. destruct (find (exact_eq d) ls) as [l|] eqn:Ef; intros H; [|discriminate H]. inversion H; subst r.
+    apply find_some in Ef. destruct Ef as [Hin He]. rewrite conf_unfold. apply existsb_exists. exists l. split; [exact Hin|].
+    rewrite <- (exact_eq_eq _ _ He) at 1. exact He.
+  Qed.
+
   Lemma dec_str_conf_gen n :
     (forall n', n = S n' -> forall t s r, ref_dec_str_l E P n' t s = Ok r -> conf_g o E r t = true) ->
     forall t s r, ref_dec_str_l E P n t s = Ok r -> conf_g o E r t = true.
   Proof.
     intros Hprev.
-    induction t as [ | | | | | | m' | k' | e' | t' IHt | fr' t' IHt | t' IHt | ts IHts | pre IHpre mid IHmid IHmide post IHpost | kt IHkt vt IHvt | t' IHt | c' | c' | c' | t' IHt | kt IHkt vt IHvt | bx t' IHt ]
+    induction t as [ | | | | | | m' | k' | e' | t' IHt | fr' t' IHt | t' IHt | ts IHts | pre IHpre mid IHmid IHmide post IHpost | kt IHkt vt IHvt | t' IHt | c' | c' | c' | t' IHt | kt IHkt vt IHvt | bx t' IHt | ls ]
       using sty_ind'; intros s r H; rewrite (ref_dec_str_unfold E P false) in H.
     - rewrite conf_unfold. reflexivity.
     - inversion H. reflexivity.
@@ -443,6 +460,7 @@ Section Conform.
     - (* boxed collection *)
       destruct (ref_dec_str_l E P n t' s) as [r0|] eqn:Er; [|discriminate H]. cbn [bind] in H. inversion H.
       apply box_conf. apply (IHt s r0 Er).
+    - apply (lit_find_conf _ _ _ H).
   Qed.
 
   Lemma dec_str_conf n : forall t s r, ref_dec_str_l E P n t s = Ok r -> conf_g o E r t = true.
@@ -538,7 +556,7 @@ Section Conform.
   Proof.
     induction d as [ | b | z | f | s | m b | l IHl | l IHl | fr l IHl | kvs IHk | c fs IHf | e m | k w | c l IHl | tg ]
       using pv_rect'; unfold conf_ok.
-    all: intros t; induction t as [ | | | | | | m' | k' | e' | t' IHt | fr' t' IHt | t' IHt | ts | pre mid IHmid post | kt IHkt vt IHvt | t' IHt | c' | c' | c' | t' IHt | kt IHkt vt IHvt | bx t' IHt ];
+    all: intros t; induction t as [ | | | | | | m' | k' | e' | t' IHt | fr' t' IHt | t' IHt | ts | pre mid IHmid post | kt IHkt vt IHvt | t' IHt | c' | c' | c' | t' IHt | kt IHkt vt IHvt | bx t' IHt | ls ];
       intros r H; pose proof H as H0; rewrite (ref_dec_unfold E P false) in H.
     (* NamedTuple / TypedDict *)
     all: try solve [ refine (named_conf _ c' r _ H0); cbn; intros x Hx; first [ destruct Hx | apply (Forall_In _ _ IHl x Hx) ] ].
@@ -593,6 +611,8 @@ Section Conform.
     all: try solve [
       match type of H with (bind ?X _ = _) => destruct X as [r0|] eqn:Er end; [|discriminate H]; cbn [bind] in H; inversion H;
       apply box_conf; apply (IHt r0 eq_refl) ].
+    (* literals *)
+    all: try solve [ apply (lit_find_conf _ _ _ H) ].
     - (* VList, STupleFix *)
       match type of H with (bind ?X _ = _) => destruct X as [r0|] eqn:Em end; [|discriminate H]. cbn [bind] in H. inversion H.
       rewrite conf_unfold. clear H H1. revert ts r0 Em. induction l as [|x l IHl']; intros ts r0 Em.
